@@ -67,7 +67,7 @@ pub fn corpus() -> Vec<String> {
 
 /// one definition per operator with every parameter of its gamut given (the definitions in the source
 /// that are not literal arguments of `.op(…)` are not found by the walk above)
-const EVERY_PARAMETER: [&str; 34] = [
+pub const EVERY_PARAMETER: [&str; 34] = [
     "molodensky ellps_0=WGS84 ellps_1=intl dx=84.87 dy=96.49 dz=116.95",
     "molodensky ellps_0=WGS84 ellps_1=intl dx=84.87 dy=96.49 dz=116.95 abridged",
     "molodensky ellps=WGS84 da=-251 df=-1.41927e-05 dx=84.87 dy=96.49 dz=116.95",
@@ -90,7 +90,7 @@ const EVERY_PARAMETER: [&str; 34] = [
     "curvature azimuthal ellps=intl",
     "curvature gaussian ellps=intl",
     "gravity grs80 ellps=GRS80",
-    "permtide from=mean to=zero ellps=GRS80 k=0.3",
+    "permtide from=mean to=free ellps=GRS80 k=0.3",
     "unitconvert xy_in=deg xy_out=rad z_in=ft z_out=m",
     "axisswap order=2,-1,3,4",
     "adapt from=neuf_deg to=enuf_rad",
@@ -590,6 +590,24 @@ pub fn generate(g: &mut Gen, thorough: bool) {
     }
     for v in VALUES {
         g.push(format!("S_C09N\t{}", escape(v)), "oracle-ellipsoid-named", true);
+    }
+    // texts of one, two, three, four numbers, with and without parentheses, numbers that are not finite
+    for v in [
+        "6378137", "(6378137)", "NaN", "inf", "-inf", "0", "()", "(", ")", ",", ",,", "6378137,", ",298.25", "6378137,298.25", "(6378137,298.25)", "6378137, 6378000, 298.25",
+        "(6378137, 6378000, 298.25)", "1,2,3,4", "(1,2,3,4)", "1,2,3,4,5", "a,b", "a,b,c", "1,b", "1,2,c", "NaN,NaN", "inf,inf,inf", "6378137,0", "0,0", "0,0,0", "1e400,1", " 6378137 ", "((1,2))",
+    ] {
+        g.push(format!("S_C09N\t{}", escape(v)), "oracle-ellipsoid-named-tuples", true);
+    }
+    // axis numbers beyond the four there are, in lists of any length
+    for order in ["5", "1,5", "2,1,-7", "1e18,1", "9,9,9,9", "-5", "4,3,2,1,5", "1,2,3,5", "255,1", "4294967296,1", "1,2,3,4,5,6,7,8", "1.0e0,2", "2,1,3,4,1"] {
+        for tail in ["", " inv"] {
+            let def = format!("axisswap order={order}{tail}");
+            let d = data(&mut g.rng, 2);
+            for kind in ["default", "plain"] {
+                g.push(case(kind, &[], &def, &d), "oracle-axisswap-axis-numbers", true);
+            }
+            g.push(super::op_line("default", &[], &[], &def, "apply", "F", &d), "model-axisswap-axis-numbers", true);
+        }
     }
     for _ in 0..(100 * scale) {
         let v = value(&mut g.rng);
